@@ -27,3 +27,20 @@ claim("C04",
       "control dependence on atomic operation results, path enumeration from the winning Delete, parameter flow across static calls to an equality test in a scan, heap/index pairing on paths, key-function provenance (go/ssa)",
       "Decides the winner-takes-callback protocol around PutIfMissing/Delete on every path, that no path removes an entry without resolving it exactly once, that each List.Delete implementation selects the item by id inside a scan, that heap and index are co-updated, that acknowledgement requires the expected type, and that keys depend on both session and identifier. Necessary conditions; heap order and time arithmetic are not decided.",
       "Not decided: heap ordering, Round(time.Second) arithmetic, gotomic internals, concurrent schedules (lock discipline under C20).")
+
+claim("C08",
+      "abstract interpretation of the LWW predicates in the finite domain of weak orderings (exhaustive: every ordering of the timestamp inputs and 0), use/def scan of timestamps, path-sensitive merge decision table with argument provenance, stamping / visibility / wiring rules (go/ssa)",
+      "Decides completely (all weak orderings) that the four crdt predicates have the LWW normal form — exact because they only compare timestamps, which is itself checked; decides on every path of the three merge routines that a remote entry is stored iff the local one is absent or strictly outdated (additions and removals alike, arguments in the right order), that batches are merged element-wise, that mutators stamp with clock(), that queries list exactly IsEntryAdded entries, and that gossip covers every field. The algebraic closure over histories (commutativity etc.) is not executed.",
+      "Not decided: the full merge algebra over all multisets of updates, behaviour on timestamp ties, protobuf round trips.")
+claim("C09",
+      "path enumeration of every mutator (write → broadcast on success paths), provenance of the queued bytes and of the event element, SSA loop-alias analysis honouring the module's go version, dominance of Lock over clock() (go/ssa)",
+      "Decides for all ten mutators that every successful path that wrote the store queues a broadcast afterwards, that the queued bytes marshal an event containing the very variable stored, that bulk mutators append per iteration a per-iteration variable (no &loopvar alias under go 1.14 semantics), that queued broadcasts never invalidate others, and that the stamp is read under the lock. Necessary conditions of 'the receiver ends up with the same listing'.",
+      "Not decided: value-level equality of listings (needs the merge algebra), memberlist queue limits.")
+claim("C10",
+      "struct-field exhaustiveness over StateBroadcastEvent, package-internal reachability from LocalState with a who-may-call rule on the visibility predicates, loop-alias analysis, merge decision table on the receiving side (go/ssa)",
+      "Decides that the snapshot producer appends to every repeated field of the event, that nothing on the snapshot path filters on IsEntryAdded/IsEntryRemoved (tombstones travel), that the dump loops do not alias one variable, and that MergeRemoteState hands every field to a merge routine that follows the merge table. Necessary conditions; the exchange itself is not executed.",
+      "Not decided: memberlist push/pull scheduling, which concurrent history wins (C08), listings after exchange as values.")
+claim("C19",
+      "dominance and control-dependence rules cross-checked between the two sibling tries (go/ssa)",
+      "Decides two structural necessary conditions in both tries — every store into a children map is dominated by a nil-check-and-make of that map; a child is pruned only under a test of both its payload and its children — and that count/iterate/match agree on the emptiness predicate. A small part of the property: map-like behaviour over all operation sequences is not decided.",
+      "Not decided: map semantics over operation sequences, dump/load round-trip equality, empty-level aliasing ('a//b', 'a/').")
